@@ -17,21 +17,28 @@ TECHNIQUE = ("Coq proof: manifest text codec round trip for all well-formed mani
              "against parseManifest/writeManifest, fileManifest.Update/UpdateGCGen/LockManifest and pruneDirAsOf driven through the repo's "
              "writeHook and prune test hooks")
 LEVEL_TEXT = ("Proof (F/M): parse_manifest (write_manifest m) = m-as-persisted for every well-formed manifest; for every schedule of store-process "
-              "steps (land table file, open/close, unlink-unprotected, lock / temp / finish of a manifest update, crash), pruner steps (scan, lock, "
-              "unlink, crash) and environment steps, the directory invariant (manifest parses, every named table file or archive exists) holds in "
-              "every reachable state, and every step leaves the manifest text unchanged or installs the complete serialisation of the proposed "
-              "contents. The model is tied to the code by replaying generated nested schedules on the real fileManifest and prune code and "
-              "comparing result codes and directory listings after each step inside Coq.")
+              "steps (land table file, open/close, unlink-unprotected, lock / temp / finish of a manifest update incl. conjoin and GC-generation "
+              "updates, crash), pruner steps (scan, lock, unlink, crash) and environment steps, the directory invariant (manifest parses, every named "
+              "table file or archive exists) holds in every reachable state; every step leaves the manifest text unchanged or installs the complete "
+              "serialisation of the proposed contents; a pruner step never removes a file the manifest names at that moment (no_live_unlink); the "
+              "executable oracle is proved true of the model for every input (oracle_on_model). The model is tied to the code by replaying generated "
+              "nested schedules on the real fileManifest / conjoinOperation.updateManifest / pruneDirAsOf code and on two real NomsBlockStore handles "
+              "(real Commit, real PruneUnreferencedWithGrace), comparing result codes and directory listings after each step inside Coq.")
 LEVEL_NOTE = ("Trusted: Coq kernel, translator (file-name and version constants), Go harness + Python glue. Modelled, not verified: a hash is its 32 "
               "base-32 digits (encoding/base32 bit packing not modelled); flock gives mutual exclusion (LOCK is one boolean); rename is atomic; "
               "read-compare-validate-rename of updateWithChecker is one step under the LOCK; fsync / power-loss durability (rename lost before the "
               "directory fsync) is not modelled: a crash is a process stop at any step boundary, with the LOCK released and temp files (possibly "
-              "partial) left behind; table landing, Open/Close and unlink-unprotected of the store process are simulated by the harness with plain "
-              "file operations (only their effect on the directory matters to the manifest and prune code); the store process is the only manifest "
-              "writer (PruneTableFiles and the conjoin cleanup protect only files open in their own process).")
+              "partial) left behind (crashes are covered by the theorems only, the harness exercises hook-abort); in the hook-driven schedules table "
+              "landing is simulated with plain file operations, in the real-store schedules it is the real persister; the store process is the only "
+              "manifest writer (PruneTableFiles and the conjoin cleanup protect only files open in their own process); the lock hash of a conjoin "
+              "proposal (SHA-512) is taken from the implementation; the timing claim (a landed but unpublished file survives if the writer's quiet "
+              "window is shorter than the grace period) is not a theorem: the model proves the complementary safety fact (such an update is rejected "
+              "with ErrManifestSpecMissingTableFile and Inv holds).")
 THEOREMS = ["manifest_codec", "manifest_codec_exact", "write_manifest_none", "inv_reachable", "inv_step", "update_atomic",
             "update_atomic_reachable", "failed_update_changes_nothing", "no_live_unlink", "no_live_unlink_candidate", "oracle_on_model", "consts_pinned"]
-RULE = ("three kinds of cases: (w) random manifest contents through writeManifest then parseManifest; (p) serialised manifests mutated by byte edits, "
+RULE = ("five kinds of cases: (c) conjoin proposals (upstream specs, conjoinees, conjoined) through the real conjoinOperation.updateManifest with a recording "
+        "updater; (n) two real NomsBlockStore handles on one directory: B commits (lands + publishes table files, root changed or not), garbage table-named "
+        "files, A opened earlier / rebased or not / holding a table the manifest dropped, then the real PruneUnreferencedWithGrace; and (w) random manifest contents through writeManifest then parseManifest; (p) serialised manifests mutated by byte edits, "
         "field edits, truncation, version changes through parseManifest; (t) nested schedules (table landings, updates with stale/fresh lock and a "
         "write hook containing further steps, GC-generation updates, grace prunes with explicit clocks whose after-snapshot and under-lock hooks "
         "contain further steps) on a fresh directory; non-trivial = a trace with at least one manifest update or prune, or a codec case; distinct by content")
@@ -410,8 +417,8 @@ def fixed_traces(rng):
     land3 = land2 + [{"op": "tmpt", "id": 5, "mt": 402, "sz": 9}, {"op": "land", "id": 5, "h": h3, "arch": False}]
     m12 = man(lk1, [h1, h2])
     prune_all = {"op": "prune", "grace": 50, "probe": 1000, "extra": [], "after": [], "under": []}
-    conj = lambda up, hook=None: {"op": "conjoin", "up": up, "cj": [{"name": h1, "count": 2}, {"name": h2, "count": 2}], "c": {"name": h3, "count": 4},
-                                  "id": 20, "mt": 1011, "hook": hook or []}
+    conj = lambda up, hook=None, mt=1011: {"op": "conjoin", "up": up, "cj": [{"name": h1, "count": 2}, {"name": h2, "count": 2}], "c": {"name": h3, "count": 4},
+                                           "id": 20, "mt": mt, "hook": hook or []}
     #   conjoin 2 -> 1, conjoined file pruned before the manifest update
     out.append(land3 + [upd(1, ZERO, m12, 410), prune_all, conj(m12)])
     #   conjoin 2 -> 1, file present: lands
@@ -429,7 +436,7 @@ def fixed_traces(rng):
     out.append(land3 + [upd(1, ZERO, m12, 410),
                         {"op": "update", "gc": True, "last": lk1, "new": gcm, "id": 2, "mt": 1012, "abort": False, "hook": []}])
     #   pruner takes the LOCK inside the conjoin's write hook: busy; and the conjoined file is then still there
-    out.append(land3 + [upd(1, ZERO, m12, 410), conj(m12, hook=[prune_all])])
+    out.append(land3 + [upd(1, ZERO, m12, 410), conj(m12, hook=[prune_all], mt=412)])
     return [{"kind": "trace", "ops": ops} for ops in out]
 
 
